@@ -36,7 +36,7 @@ ASSUMPTIONS = [
 ]
 SHARDS = {"quick": 4, "thorough": 16}
 
-NAMES = ["sel", "sel2", "filter", "notepad", "or_x", "all-in", "_priv", "x1", "not_sel", "selection_a", "them2"]
+NAMES = ["sel", "sel2", "filter", "notepad", "or_x", "all-in", "_priv", "x1", "not_sel", "selection_a", "them2", "them1", "anthem"]
 UUIDS = [f"00000000-0000-4000-8000-0000000000{i:02d}" for i in range(8)]
 
 
@@ -216,7 +216,7 @@ def cases(draw):
         used = draw(st.lists(st.sampled_from(names), min_size=1, max_size=len(names), unique=True))
         terms = list(used)
         if draw(st.booleans()):
-            terms.append(draw(st.sampled_from(["1 of sel*", "all of them", "1 of them", "any of filter*", "1 of nomatch*", "all of _*", "1 of *x*", "1 of zz*"])))
+            terms.append(draw(st.sampled_from(["1 of sel*", "all of them", "1 of them", "any of filter*", "1 of nomatch*", "all of _*", "1 of *x*", "1 of zz*", "1 of them*", "all of them*", "1 of *them"])))
         cond = terms[0]
         for t in terms[1:]:
             cond += f" {draw(st.sampled_from(['and', 'or', 'and not']))} {t}"
